@@ -32,6 +32,7 @@ def run(tier, scratch, t0, replay=None):
 
     # ---- payload sources: corpus (magic -> (payload bytes, header len)) and fresh files
     payloads = {}
+    magic_word = {}
     for p in K.corpus_files():
         with open(p, "rb") as f:
             data = f.read()
@@ -45,6 +46,7 @@ def run(tier, scratch, t0, replay=None):
         v = (int(m.group(1)), int(m.group(2)))
         hl = {"pep552": 16, "ts+size": 12, "ts": 8}[layout(v)]
         payloads[magic] = (data[hl:], v, "pypy" in tag, tag)
+        magic_word[magic] = data[:4]  # the real four bytes: Python 1.0-1.2 files do not end their magic word with CR LF
 
     # ---- (a) real files written by the interpreters themselves
     src = os.path.join(wd, "hdrsrc.py")
@@ -111,7 +113,7 @@ def run(tier, scratch, t0, replay=None):
                 ts, sz, hs = rng.getrandbits(32), rng.getrandbits(32), rng.getrandbits(64)
                 if rep == 0:
                     ts, sz, hs = 0xFFFFFFFF, 0xFFFFFFFF, 0xFFFFFFFFFFFFFFFF
-                head = struct.pack("<H", mg) + b"\r\n"
+                head = magic_word.get(mg, struct.pack("<H", mg) + b"\r\n")
                 exp = {"version": list(v), "magic": mg, "vtag": tag, "form": "synthetic:%s:flags=%s" % (lay, fl),
                        "timestamp": None, "source_size": None, "sip_hash": None, "flags": fl}
                 if lay == "ts":
